@@ -472,7 +472,64 @@ def rule_admission(ck, facts):
                 ck.bad(R, key, "%s raises %s under %s instead of %s: %s" % (f.short, variant, [p.split("::")[-1] for p in preds if p != "match"] or "no predicate", pred.split("::")[-1], why), f.where(st))
 
 
+
+def rule_clamped_slice(ck, facts):
+    """clamping an index into `0..=len-1` only helps when there is an element"""
+    from ..cfg import DefIndex, dominators
+
+    R = "C03.value-aborts"
+    lang = facts.crate(roles.LANG)
+    n = 0
+    for f in lang.fns:
+        if "::runtime::wasm" not in f.path or f.kind == "promoted" or "::test" in f.path:
+            continue
+        names = [(callee(t) or "").split("::")[-1] for _, t in f.calls()]
+        if "clamp" not in names:
+            continue
+        di = DefIndex(f)
+        dom = dominators(f)
+        for b, t in f.calls():
+            c = callee(t) or ""
+            full = str(t[4].get("full") or "")
+            if c.split("::")[-1] not in ("index", "index_mut") or "Range" not in (full + c):
+                continue
+            n += 1
+            guarded = False
+            for d in dom[b]:
+                tt = f.term(d)
+                if tt[KIND] != "switch" or tt[4][0] not in ("cp", "mv"):
+                    continue
+                r = di.resolve(tt[4])
+                if r[0] == "rv" and r[1][5][0] == "bin" and r[1][5][1] in ("eq", "ne", "gt", "lt") and any(o[0] == "c" and o[1] == "i" and str(o[3]) == "0" for o in r[1][5][2:4]):
+                    # the value compared with 0 is a length (not the handle)
+                    for o in r[1][5][2:4]:
+                        x = o
+                        for _ in range(5):
+                            if x[0] not in ("cp", "mv"):
+                                break
+                            rr = di.resolve(x)
+                            if rr[0] == "call" and (callee(rr[1]) or "").split("::")[-1] in ("len", "get_length_array", "get_length", "length"):
+                                guarded = True
+                                break
+                            if rr[0] == "rv" and rr[1][5][0] == "cast":
+                                x = rr[1][5][2]
+                                continue
+                            if rr[0] == "rv" and rr[1][5][0] == "bin" and rr[1][5][1] in ("div", "mul"):
+                                x = rr[1][5][2]
+                                continue
+                            break
+                if r[0] == "call" and (callee(r[1]) or "").split("::")[-1] == "is_empty":
+                    guarded = True
+            key = "clamped-slice|%s" % f.short.split("::")[-1]
+            if guarded:
+                ck.ok(R, key)
+            else:
+                ck.bad(R, key, "%s brings an index into range with `clamp(0, len - 1)` and then slices the storage without having excluded the empty array: for a length of 0 the clamped index is 0 and the slice `[0..width]` of an empty vector panics inside the host call (an array that became empty at run time, the empty literal)" % f.short, f.where(t))
+    ck.floor(R, "clamped_slices_in_host_functions", n, 2)
+
+
 def run(ck, facts, tier):
+    rule_clamped_slice(ck, facts)
     # an index the VM does not bring into range before it slices the array is a crash, not only a VM / WASM difference
     from . import prims as _prims
 
